@@ -103,8 +103,12 @@ pub fn main(args: &[String]) {
         }
         if t[0] == "restart" || t[0] == "kill" {
             if t[0] == "restart" {
-                // clean shutdown: drop the instance, then the process ends
+                // clean shutdown: drop the instance, then the process ends. The marker tracker is
+                // reference counted and the persister thread holds a temporary reference while it
+                // checks for work, so the final drop (which writes the markers) may run on that
+                // thread: give it a moment before the process image goes away.
                 wal = None;
+                std::thread::sleep(std::time::Duration::from_millis(20));
             }
             writeln!(out, "ok").unwrap();
             code = 77;
@@ -136,9 +140,19 @@ pub fn main(args: &[String]) {
                     "ok".into()
                 }
                 "persist" => {
-                    walrus_rust::wal::verif_hooks::hold_marker_persister(false);
-                    std::thread::sleep(std::time::Duration::from_millis(40));
-                    walrus_rust::wal::verif_hooks::hold_marker_persister(true);
+                    // let the background persister make one full pass: two loop iterations must
+                    // start after the release (the first may have passed the hold check already)
+                    if wal.is_some() {
+                        let t0 = walrus_rust::wal::verif_hooks::marker_persister_ticks();
+                        walrus_rust::wal::verif_hooks::hold_marker_persister(false);
+                        let started = std::time::Instant::now();
+                        while walrus_rust::wal::verif_hooks::marker_persister_ticks() < t0 + 3
+                            && started.elapsed().as_secs() < 10
+                        {
+                            std::thread::sleep(std::time::Duration::from_millis(1));
+                        }
+                        walrus_rust::wal::verif_hooks::hold_marker_persister(true);
+                    }
                     "ok".into()
                 }
                 "reclaim" => {
